@@ -1,4 +1,5 @@
 """C01 - value semantics: writes stay local, read-only operations are pure."""
+from typing import Union
 from vp import h as H
 from vp.h import Vector, Table, AliasError
 
@@ -251,6 +252,65 @@ def h_iso(di: int, ti: int, wi: int, row: int) -> bool:
     return H.ok()
 
 
+# ------------------------------------------------------------------ the same isolation statement with symbolic cells, written value and row (traced, not native)
+SYM_DERIVS = ['slice', 'copy', 'colsel', 'rshift-dict', 'left', 'sort', 'setattr', 'Table()', 'mask', 'sel2d', 'T', 'inner']
+
+
+def h_iso_sym(a: int, b: int, c: int, d: int, i: int, x: int, side: int) -> bool:
+    """
+    pre: -2 <= i <= 1 and 0 <= side <= 3
+    pre: H.fix(side=side)
+    post: _
+    """
+    H.reset()
+    if H.skip(locals()): return True
+    deriv = H.cfg('deriv')
+    val = {'int': x, 'float': 2.5, 'none': None}[H.cfg('valkind')]
+    va = Vector([a, b], name='a'); vb = Vector([c, d], name='b')
+    parent = Table([va, vb])
+    donor = None
+    if deriv == 'slice': child = parent[0:2]
+    elif deriv == 'copy': child = parent.copy()
+    elif deriv == 'colsel': child = parent['b', 'a']
+    elif deriv == 'rshift-dict':
+        donor = Vector([7, 8]); child = parent >> {'n': donor}
+    elif deriv in ('left', 'inner'):
+        # the join key is a concrete third column (symbolic keys would be realised at the hash boundary); the payload stays symbolic
+        parent = Table([va, vb, Vector([1, 2], name='k')])
+        partner = Table({'k': [2, 1], 'z': [c, d]})
+        child = parent.join(partner, 'k', 'k') if deriv == 'left' else parent.inner_join(partner, 'k', 'k')
+    elif deriv == 'sort': child = parent.sort_by('a', reverse=True)
+    elif deriv == 'setattr':
+        donor = Vector([7, 8], name='dn'); parent.b = donor; child = donor
+    elif deriv == 'Table()': child = Table(list(parent.cols()))
+    elif deriv == 'mask': child = parent[[True, True]]
+    elif deriv == 'sel2d': child = parent[0:2, ('a', 'b')]
+    elif deriv == 'T': child = parent.T
+    else: raise ValueError(deriv)
+    objs = [('va', va), ('vb', vb), ('parent', parent), ('child', child)] + ([('donor', donor)] if donor is not None and donor is not child else [])
+    before = [H.snap(o) for _, o in objs]
+    target = [va, parent, child, donor][side]
+    if target is None: return True
+    ti = [k for k, (_, o) in enumerate(objs) if o is target][0]
+    try:
+        if isinstance(target, Table):
+            if len(target) == 0 or len(target.cols()) == 0: return True
+            target.cols()[0][i] = val
+        else:
+            target[i] = val
+        raised = False
+    except Exception:
+        raised = True
+    after = [H.snap(o) for _, o in objs]
+    for k in range(len(objs)):
+        if k == ti and not raised: continue
+        if not H.snap_eq(before[k], after[k]):
+            return H.fail('derivation %s: write of %r at %r through [%s] %s changed [%s]: %r -> %r' % (deriv, val, i, objs[ti][0], 'was refused but' if raised else '', objs[k][0], before[k], after[k]))
+    why = H.all_truthful(*[o for _, o in objs])
+    if why: return H.fail(why)
+    return H.ok()
+
+
 # ------------------------------------------------------------------ read-only operations are pure
 def _pure_ops():
     import operator as op
@@ -472,6 +532,16 @@ def obligations(tier):
                 continue
             obs.append(dict(name='iso[%s,%s]' % (origin, DERIVS[di]), fn='h_iso', config={'origin': origin, 'di': di}, budget=60 if q else 200,
                             bounds='every live handle (<= 9) x 18 write forms x 3 rows', smoke=[[di, 2, 8, 0], [di, 0, 0, 1]]))
+    for deriv in SYM_DERIVS:
+        for side in range(4):
+            if side == 3 and deriv not in ('rshift-dict', 'setattr'):
+                continue
+            if q and side == 0 and deriv not in ('Table()', 'slice'):
+                continue
+            for vk in ('int', 'float', 'none'):
+                obs.append(dict(name='iso-symbolic[%s,side=%d,%s]' % (deriv, side, vk), fn='h_iso_sym', config={'deriv': deriv, 'side': side, 'valkind': vk}, budget=90 if q else 400,
+                                bounds='2x2 table of unbounded symbolic ints; the write (symbolic row in [-2,1]; value: unbounded symbolic int / 2.5 (promotes) / None (makes nullable)) goes through '
+                                       'input vector / parent / child / donor; symbolically executed (not native)', smoke=[[1, 2, 3, 4, 0, 9, side], [1, 1, 3, 4, -1, 2, side]]))
     G = 12
     for lo in range(0, len(PURE), G):
         hi = min(len(PURE), lo + G)
